@@ -122,7 +122,10 @@ def _interp_1d_conservative(phi, theta_1, theta_2, theta_hat_1, theta_hat_2, out
                 # there is no overlap between the cell and the bin
                 pass
             elif theta_max == theta_min:
-                output[j] += phi[i]
+                # a homogeneous cell is a point: it goes into one bin only (the upper
+                # edge of a bin belongs to the next bin, except for the last bin)
+                if (theta_max < theta_hat_2[j]) or (j == m - 1):
+                    output[j] += phi[i]
             else:
                 # from here on there is some overlap
                 theta_hat_min = max(theta_min, theta_hat_1[j])
